@@ -91,6 +91,11 @@ def mtl_backward(
     if len(features) == 0:
         raise ValueError("`features` cannot be empty.")
 
+    # Materialize the parameters first: they may be one-shot iterables (e.g. `model.parameters()`),
+    # which would otherwise be exhausted by the checks below.
+    shared_params = list(shared_params)
+    tasks_params = [list(task_params) for task_params in tasks_params]
+
     _check_no_overlap(shared_params, tasks_params)
     _check_losses_are_scalar(losses)
 
@@ -98,9 +103,6 @@ def mtl_backward(
         raise ValueError("`losses` cannot be empty")
     if len(losses) != len(tasks_params):
         raise ValueError("`losses` and `tasks_params` should have the same size.")
-
-    shared_params = list(shared_params)
-    tasks_params = [list(task_params) for task_params in tasks_params]
 
     # Reject parameters whose .grad cannot be populated before any .grad field is modified.
     for param in shared_params + [param for task_params in tasks_params for param in task_params]:
